@@ -298,6 +298,36 @@ def rule_W1(facts, rep, c):
         rep.ob("C01.W1", "discharged:%s" % idiom, True, "%d sites discharged by idiom %s" % (cnt, idiom))
     rep.floor("C01.W1", "panic-capable sites classified", n_sites, 90)
     rep.sample({"rule": "C01.W1", "entries": entries[:6], "reachable_fns": len(tops), "sites": n_sites, "by_idiom": counts})
+    # the native type name parsed (with expect) by the renderer: every construction site stores a literal or a string that
+    # was itself validated as a type path in the constructing function
+    from lib import Canon
+    n_nat = 0
+    for h in c.user_fns():
+        cnn = None
+        k_in = 0
+        for n, anc in walk(h["body"]):
+            if not (n.get("k") == "call" and re.search(r"TypeEntry::new_native(_params)?$", n.get("fn", "")) and n.get("args")):
+                continue
+            n_nat += 1
+            a0 = strip_refs(n["args"][0])
+            if a0.get("k") == "lit":
+                continue
+            cnn = cnn or Canon(c, h, 4)
+            want = cnn.r(a0)
+            validated = False
+            for x, xa in walk(h["body"]):
+                if x.get("k") == "call" and x.get("fn", "").endswith("parse_str") and "syn::TypePath" in c.ty(x.get("ty")) and x.get("args"):
+                    if cnn.r(strip_refs(x["args"][0])) == want:
+                        par = xa[-1] if xa else {}
+                        # the failure must leave the function (is_err() => return, `?`, let-else)
+                        leaves = (par.get("k") == "mcall" and par["name"] in ("is_err", "is_ok", "ok")) or par.get("k") in ("match", "letx", "let")
+                        validated = validated or leaves
+            key = "%s#%d" % (h["fn"], k_in)
+            k_in += 1
+            rep.ob("C01.W1", "native-name-validated:" + key, validated,
+                   "the stored type name is the string that was parsed as a type path in this function" if validated else
+                   "a native type name built from `%s` is stored without being parsed as a type path: the renderer parses it with expect(), so a string that is not a path panics in to_stream()" % want[:90], n.get("sp"))
+    rep.floor("C01.W1", "construction sites of native types", n_nat, 8)
     # I5: Reference entries are never stored
     stored_ref = []
     for h in c.user_fns():
